@@ -167,12 +167,15 @@ func (n *nodeSim) Delete(ctx context.Context, name string, opts metav1.DeleteOpt
 // Listers: return the snapshot the harness installed, in the installed order.
 
 type podListerSim struct {
-	rec  *Recorder
-	pods []*v1.Pod
+	rec   *Recorder
+	pods  []*v1.Pod
+	quiet bool // the harness itself is listing (observation after the scan): not the start of a group scan
 }
 
 func (l *podListerSim) List(sel labels.Selector) ([]*v1.Pod, error) {
-	l.rec.Marks = append(l.rec.Marks, len(l.rec.Entries))
+	if !l.quiet {
+		l.rec.Marks = append(l.rec.Marks, len(l.rec.Entries))
+	}
 	return l.pods, nil
 }
 func (l *podListerSim) Pods(ns string) v1lister.PodNamespaceLister { return nil }
